@@ -161,7 +161,7 @@ def canonCsvErr (v : Json) : Json :=
 
 def canon (j : Json) : Json :=
   match j with
-  | .obj kvs => .obj (kvs.map fun (k, v) => if k == "error" || k == "csv_error" then (k, canonCsvErr v) else (k, v))
+  | .obj kvs => .obj (kvs.map fun (k, v) => if k == "error" || k.startsWith "csv_error" then (k, canonCsvErr v) else (k, v))
   | _ => j
 
 /-- split a text at `\n`; a trailing newline yields a final empty piece -/
@@ -180,8 +180,13 @@ def canonFile (s : FileSink) (sort : Bool) : List Char :=
   | opened :: chunks =>
     let rest := chunks.flatten
     if sort then
-      let ls := (splitLines rest).toArray.qsort textLt |>.toList
-      opened ++ joinWith ['\n'] ls
+      match s.format with
+      | .csv _ _ =>
+        -- a CSV record may span lines (line breaks inside quoted fields): sort the records themselves
+        opened ++ (chunks.toArray.qsort textLt |>.toList).flatten
+      | .json _ =>
+        let ls := (splitLines rest).toArray.qsort textLt |>.toList
+        opened ++ joinWith ['\n'] ls
     else opened ++ rest
 
 def returnedOut (rs : List (List Json)) : String :=
@@ -196,6 +201,7 @@ def caseP : P String := do
     let hdr := optOut hexOfText (initialContents f)
     match formatResponse floatOps f r with
     | .panic => pure "panic"
+    | .diverges => pure "diverges"
     | .ok (row, r') => pure s!"H {hdr} R {hexOfText row} P {JsonProto.enc (canon r')}"
   | "S" => do
     let modeTok ← next
@@ -250,6 +256,7 @@ def caseP : P String := do
       ({ format := f, flushEvery := 1, file := [[]], iterations := 0, flushes := 0, poisoned := false } : FileSink)
     match writeCombined floatOps sinks r with
     | .panic _ => pure "panic"
+    | .diverges _ => pure "diverges"
     | .lockError _ => pure "lock"
     | .ok ss r' =>
       let rows := ss.map fun s => hexOfText (s.file.drop 1).flatten
